@@ -64,6 +64,7 @@ type Ctx struct {
 
 	FuncsAnalysed map[string]bool
 	SelfTest      *SelfTestResult
+	orbitOnly     bool
 	seenKeys      map[string]int
 }
 
